@@ -15,8 +15,13 @@ lists, per function.parameter:from->to, the representations that are rejected th
   * key unknown to the baseline -> counted in coverage bin forms.unknown, no verdict.
 A third kind of twin needs no baseline: the *identical* call made a second time (same argument objects, same RNG state) must
 return the same values (monitor forms.repeat) — state left behind by the first call, or an argument it modified, shows here.
-A fourth repeats the call under different numpy print options and floating-point error state (monitor forms.ambient): a
-result may depend on its arguments, gv and the numpy RNG only.
+A fourth repeats the call under different numpy print options and with deprecation-class warnings promoted to errors (monitor
+forms.ambient), and after EVERY call through the layer the process-global ambient state (numpy error state and print options,
+warnings filters other than the RuntimeWarning filter utils.db installs on the pinned tree, cwd, environment) must be as
+before (monitor ambient.unchanged): a result may depend on its arguments, gv and the numpy RNG only. A fifth repeats it with another slot count gv.N in force (monitor
+forms.gvN) and with user-defined gv attributes named like the function's own parameters: N only sizes the convenience axes
+gv.t / gv.w / gv.dw, which no library function reads, and an omitted argument means its documented default; every closed form of
+the properties is stated without either.
 The canonical call is always the workload's own call, through the property's monitors; the twin goes through them too
 (all-keyword twins go to the undecorated function, because the monitors' wrappers call it positionally).
 """
@@ -147,6 +152,13 @@ def _real(fn):
     return fn
 
 
+def _ambient(ctx, qual, before):
+    """every call made by a workload: the function must leave the process-global ambient state as it found it"""
+    d = core.ambient_diff(before, core.ambient_snapshot(full="environ" in before))
+    with core.monitor_scope():
+        ctx.check("ambient.unchanged", d is None, f"{qual} changed process-global state and did not restore it: {d}")
+
+
 def make_layer(ctx, qual, period=PERIOD):
     def layer(orig):
         real = _real(orig)
@@ -164,18 +176,23 @@ def make_layer(ctx, qual, period=PERIOD):
             if core.in_monitor() or _depth[0] > 0 or sig is None:
                 return orig(*a, **k)
             rng = _rng(ctx)
-            if rng.integers(period) != 0:
+            twin = rng.integers(period) == 0
+            amb0 = core.ambient_snapshot(full=bool(twin))
+            if not twin:
                 _depth[0] += 1
                 try:
-                    return orig(*a, **k)
+                    r = orig(*a, **k)
                 finally:
                     _depth[0] -= 1
+                _ambient(ctx, qual, amb0)
+                return r
             st0 = np.random.get_state()
             _depth[0] += 1
             try:
                 r = orig(*a, **k)
             finally:
                 _depth[0] -= 1
+            _ambient(ctx, qual, amb0)
             st1 = np.random.get_state()
             try:
                 bound = sig.bind(*a, **k)
@@ -202,9 +219,11 @@ def make_layer(ctx, qual, period=PERIOD):
                     flatkw[name] = v
             allkw = ("*", "positional->keyword", ("allkw",)) if kw_ok and (real_varkw or set(flatkw) <= real_names) and len(a) > 0 else None
             repeat = ("*", "first call->identical second call", ("repeat",))
-            u = int(rng.integers(5))
+            u = int(rng.integers(6))
             if u == 4:
-                pname, lab, spec = ("*", "default numpy print/err state->other print/err state", ("ambient",))
+                pname, lab, spec = ("*", "default print options and warnings filter->other print options, -W error::DeprecationWarning", ("ambient",))
+            elif u == 5:
+                pname, lab, spec = ("*", "gv as is->another gv.N (t, w, dw rebuilt) and custom gv attributes named like the parameters", ("gvN",))
             elif u == 0 or (not cands and allkw is None):
                 pname, lab, spec = repeat
             elif (u == 1 and allkw is not None) or not cands:
@@ -225,11 +244,54 @@ def make_layer(ctx, qual, period=PERIOD):
                                 r2 = orig(*a, **k)
                         finally:
                             _depth[0] -= 1
+                    elif spec[0] == "gvN":
+                        import opticomlib.typing as _ty
+                        g = _ty.gv
+                        saved = dict(vars(g))
+                        alt = 3 if g.N != 3 else 5
+                        _depth[0] += 1
+                        try:
+                            g.N = alt
+                            g.t = np.linspace(0, alt * g.sps * g.dt, alt * g.sps, endpoint=True)
+                            g.dw = 2 * np.pi * g.fs / (alt * g.sps)
+                            g.w = 2 * np.pi * np.fft.fftshift(np.fft.fftfreq(alt * g.sps)) * g.fs
+                            # ... and user-defined attributes named like this function's own parameters (gv(..., BW=..., G=...) is
+                            # how the documentation stores link parameters): an omitted argument means its documented default,
+                            # never a same-named attribute of gv
+                            for pn in real_names:
+                                if pn in ("self", "input", "op_input", "el_input") or pn in saved or pn.startswith("_"):
+                                    continue
+                                v = bound.arguments.get(pn, None)
+                                if isinstance(v, (int, float, np.integer, np.floating)) and not isinstance(v, (bool, np.bool_)) and v != 0 and np.isfinite(v):
+                                    av = type(v)(v * 0.5) if not isinstance(v, (int, np.integer)) else type(v)(v + 1)
+                                elif pn.upper().startswith("BW"):
+                                    av = 0.05 * g.fs
+                                else:
+                                    av = 2.0
+                                setattr(g, pn, av)
+                            with core.quiet():
+                                r2 = orig(*a, **k)
+                        finally:
+                            _depth[0] -= 1
+                            vars(g).clear()
+                            vars(g).update(saved)
                     elif spec[0] == "ambient":
                         _depth[0] += 1
                         try:
-                            with core.quiet(), np.printoptions(precision=2, threshold=4, edgeitems=1, suppress=True, linewidth=30, floatmode="fixed"), np.errstate(all="ignore"):
-                                r2 = orig(*a, **k)
+                            with core.quiet(), np.printoptions(precision=2, threshold=4, edgeitems=1, suppress=True, linewidth=30, floatmode="fixed"):
+                                # deprecation-class warnings promoted to errors (python -W error::DeprecationWarning): a call that
+                                # returns under the default filter must return under this one too. The library's own UserWarning /
+                                # RuntimeWarning messages stay silenced.
+                                import warnings as _w
+                                for cat in (DeprecationWarning, PendingDeprecationWarning, FutureWarning, getattr(np, "VisibleDeprecationWarning", DeprecationWarning)):
+                                    _w.simplefilter("error", cat)
+                                with np.errstate(all="warn"):      # quiet() ignores everything: a seterr(...='ignore') left behind would not show
+                                    amb1 = core.ambient_snapshot(full=False)
+                                    r2 = orig(*a, **k)
+                                    leak = core.ambient_diff(amb1, core.ambient_snapshot(full=False))
+                                if leak:
+                                    with core.monitor_scope():
+                                        ctx.check("ambient.unchanged", False, f"{qual} changed process-global state and did not restore it: {leak}")
                         finally:
                             _depth[0] -= 1
                     else:
@@ -250,11 +312,11 @@ def make_layer(ctx, qual, period=PERIOD):
                             _depth[0] -= 1
                 except core.Watchdog:
                     raise
-                except (TypeError, ValueError, AttributeError, IndexError, OverflowError) as e:
+                except (TypeError, ValueError, AttributeError, IndexError, OverflowError, Warning) as e:
                     outcome = f"raises:{type(e).__name__}"
-                    if spec[0] in ("repeat", "ambient"):
+                    if spec[0] in ("repeat", "ambient", "gvN"):
                         with core.monitor_scope():
-                            ctx.check("forms.repeat" if spec[0] == "repeat" else "forms.ambient", False, f"{qual}: the identical call repeated (same objects, same numpy RNG state) raises {type(e).__name__}: {str(e)[:160]} although the first call returned", key=key)
+                            ctx.check({"repeat": "forms.repeat", "ambient": "forms.ambient", "gvN": "forms.gvN"}[spec[0]], False, f"{qual}: the identical call repeated ({lab}; same objects, same numpy RNG state) raises {type(e).__name__}: {str(e)[:160]} although the first call returned", key=key)
                         return r
                     if "RV_FORMS_RECORD" in os.environ:
                         _record.setdefault(key, {}).setdefault(outcome, 0)
@@ -275,6 +337,10 @@ def make_layer(ctx, qual, period=PERIOD):
                         _record.setdefault(key, {}).setdefault("ok", 0)
                         _record[key]["ok"] += 1
                     ok, why = same(r2, r)
+                    if spec[0] == "gvN":
+                        ctx.check("forms.gvN", ok, f"{qual}: result depends on the slot count gv.N (which only sizes the convenience axes gv.t / gv.w / gv.dw) or on a user-defined gv attribute named like one of its parameters: {why}", key=key)
+                        ctx.bin("forms.key", key)
+                        return r
                     if spec[0] == "ambient":
                         ctx.check("forms.ambient", ok, f"{qual}: result depends on numpy's print options / floating-point error state (neither is an argument, gv or the RNG): {why}", key=key)
                         ctx.bin("forms.key", key)
